@@ -265,19 +265,6 @@ func c13Run(c *Ctx, dir string, pc *c13Case) {
 		return
 	}
 	pc.Journal = pc.Out
-	if pc.St.Imp == "ch.postfinance" {
-		// the importer echoes the record that ends the booking block (a left-over fmt.Println): strip exactly that text
-		recs, _ := c13Decode(pc.St.Imp, pc.St.File)
-		i := 0
-		for i < len(recs) && len(recs[i]) == 2 {
-			i++
-		}
-		for i++; i < len(recs) && len(recs[i]) >= 7 && len(recs[i]) <= 8; i++ {
-		}
-		if i < len(recs) {
-			pc.Journal = strings.TrimPrefix(pc.Out, fmt.Sprintln(len(recs[i]), recs[i]))
-		}
-	}
 	pc.Read = c13ReadOutput(pc.Journal)
 	if !pc.Read.OK || (pc.Read.NTx == 0 && pc.Read.NOther == 0) {
 		return
@@ -299,11 +286,9 @@ func c13Run(c *Ctx, dir string, pc *c13Case) {
 }
 
 const (
-	c13KnownPostfinance = "C13-postfinance-debug-line-on-stdout"
 	c13KnownWise        = "C13-wise-conversion-two-transactions"
 	c13KnownForexPair   = "C13-swissquote-forex-pair-one-transaction"
 	c13KnownIBRounding  = "C13-interactivebrokers-rounds-to-cents"
-	c13KnownQuoteSort   = "C13-quote-replaced-after-sorting"
 )
 
 // c13Known reports a recorded finding; at most two cases per key are kept in the evidence (the shared cap on stored
@@ -416,12 +401,6 @@ func c13Evaluate(c *Ctx, bt *Batch, pc *c13Case) {
 		return
 	}
 	// ---- monitor: the emitted text is valid for knut's own parser
-	if st.Imp == "ch.postfinance" && pc.Journal != pc.Out {
-		rd := c13ReadOutput(pc.Out)
-		if !rd.OK {
-			c13Known(c, pc.Stream, pc.Idx, "output_parses", in, "stdout is not a journal: "+rd.Err+"\n"+pc.Out, c13KnownPostfinance)
-		}
-	}
 	if !c13Monitor(c, pc, pc.Stream, pc.Idx, "output_parses", in, pc.Read.OK, "the importer's output is rejected by knut's parser: "+pc.Read.Err+"\n"+pc.Journal) {
 		return
 	}
@@ -502,33 +481,11 @@ func c13Evaluate(c *Ctx, bt *Batch, pc *c13Case) {
 	}
 }
 
-// fixpoint: `knut print` must reproduce opens + output byte for byte. The printer replaces a double quote in a
-// description by a single quote AFTER sorting the day's transactions by description, so a statement with a double quote
-// in a free-text field can come out in an order that is not the sorted order of the printed text: a known finding,
-// recognised by (a) a double quote in some field of the statement and (b) the re-printed text being a permutation of
-// the same lines.
+// fixpoint: `knut print` must reproduce opens + output byte for byte (also when a free-text field holds a double quote:
+// since repair 7934e0c the built transaction stores the replaced description, so sorting and printing see the same text).
 func (pc *c13Case) fixpoint(c *Ctx, in map[string]any, recs [][]string) {
-	if pc.PrintOut == pc.PrintInput {
-		c13Monitor(c, pc, pc.Stream, pc.Idx, "output_reprinted_unchanged", in, true, "")
-		return
-	}
-	detail := "`knut print` changes opens + output:\n" + pc.PrintInput + "\n---\n" + pc.PrintOut
-	quote := false
-	for _, rec := range recs {
-		for _, f := range rec {
-			if strings.Contains(f, "\"") {
-				quote = true
-			}
-		}
-	}
-	a, b := strings.Split(pc.PrintInput, "\n"), strings.Split(pc.PrintOut, "\n")
-	sort.Strings(a)
-	sort.Strings(b)
-	if quote && strings.Join(a, "\n") == strings.Join(b, "\n") {
-		c13Known(c, pc.Stream, pc.Idx, "output_reprinted_unchanged", in, detail, c13KnownQuoteSort)
-		return
-	}
-	c13Monitor(c, pc, pc.Stream, pc.Idx, "output_reprinted_unchanged", in, false, detail)
+	c13Monitor(c, pc, pc.Stream, pc.Idx, "output_reprinted_unchanged", in, pc.PrintOut == pc.PrintInput,
+		"`knut print` changes opens + output:\n"+pc.PrintInput+"\n---\n"+pc.PrintOut)
 }
 
 // statements on which the real importer and the model disagree (without a monitor having failed there): the directed
@@ -673,7 +630,7 @@ func runC13(c *Ctx) {
 	}
 	c.Notes = append(c.Notes,
 		"row models and Faithful theorems exist for all eleven importers; the text-level validity clause (printed text parses and re-prints unchanged) is decided by the monitors output_parses, output_parses_lean_parser, output_accepted, output_reprinted_unchanged on the REAL output",
-		"known by-design deviations are reported as KNOWN-FINDING lines: wise books a conversion row as two transactions, swissquote books a forex pair (two rows) as one, interactivebrokers rounds to cents, postfinance echoes a debug line on stdout")
+		"known by-design deviations are reported as KNOWN-FINDING lines: wise books a conversion row as two transactions, swissquote books a forex pair (two rows) as one, interactivebrokers rounds to cents; the three repaired findings (postfinance debug line, quote replaced after sorting, swissquote sale without proceeds) are ordinary violations if they return")
 }
 
 // ---------------------------------------------------------------- corpus: the golden files of the repository
